@@ -17,6 +17,8 @@ import hashlib
 VERIF = os.path.dirname(os.path.dirname(os.path.abspath(__file__)))
 SPEC = os.path.join(VERIF, 'spec')
 REPO = os.environ.get('VERIF_REPO', '/repo')
+if REPO not in sys.path:          # lark is imported from the tree under test, whichever module imports it first
+    sys.path.insert(0, REPO)
 EVID = os.path.join(VERIF, 'evidence')
 REPLAYS = os.path.join(VERIF, 'replays')
 TLA_JAR = '/opt/veriftools/tla/tla2tools.jar'
